@@ -260,3 +260,31 @@ def working_value(si_factor, dim, base):
 
 def base_of(nu):
     return (float(nu.m), float(nu.kg), float(nu.s), float(nu.C), float(nu.K))
+
+
+# ---- names added in round 8 -------------------------------------------------------------------------------
+# non-ASCII spellings numericalunits also defines (same quantities as their ASCII twins), four more constants
+# (CODATA 2022 values as published; measured ones get the MEAS slack) and the astronomical units (IAU definitions,
+# nominal solar and Earth masses, the sidereal year numericalunits uses)
+def _more_units():
+    U = UNITS
+    U['Å'] = U['angstrom']
+    U['Ω'] = U['ohm']
+    U['ħ'] = U['hbar']
+    for pre, f in (('m', 1e-3), ('k', 1e3), ('M', 1e6), ('G', 1e9)):
+        U[pre + 'Ω'] = (U['ohm'][0] * f, U['ohm'][1], U['ohm'][2])
+    U['mu0'] = U['μ0'] = (1.25663706127e-06, (1, 1, 0, -2, 0), 1e-8)
+    U['eps0'] = U['ε0'] = (8.8541878188e-12, (-3, -1, 2, 2, 0), 1e-8)
+    U['sigmaSB'] = U['σSB'] = (5.670374419184429e-08, (0, 1, -3, 0, -4), 1e-12)
+    U['alphaFS'] = U['αFS'] = (0.0072973525643, (0, 0, 0, 0, 0), 1e-8)
+    U['astro_unit'] = (149597870700.0, (1, 0, 0, 0, 0), 0.0)
+    U['pc'] = (149597870700.0 * 648000.0 / 3.141592653589793, (1, 0, 0, 0, 0), 1e-15)
+    U['lightyear'] = (9460730472580800.0, (1, 0, 0, 0, 0), 0.0)
+    U['Msolar'] = (1.98847e+30, (0, 1, 0, 0, 0), 0.0)
+    U['MEarth'] = (5.9722e+24, (0, 1, 0, 0, 0), 0.0)
+    U['day'] = (86400.0, (0, 0, 1, 0, 0), 0.0)
+    U['week'] = (604800.0, (0, 0, 1, 0, 0), 0.0)
+    U['year'] = (365.256363004 * 86400.0, (0, 0, 1, 0, 0), 1e-12)
+
+
+_more_units()
